@@ -313,6 +313,14 @@ theorem fpollFail_spec (s : FSt) (listing : List Nat) (bad : Nat) :
       exact this.2 h
     · exact hnot h
 
+/-- A read cut short by a raising consumer hands over a prefix of the records of that read, never a record twice,
+and leaves the same clean buffer as the complete read (what follows the failing record in that read is lost: the
+property makes no exactly-once claim under consumer faults, only "nothing twice, nothing out of order"). -/
+theorem feedFail_spec (d : Text) (s : St) (chunk : Text) (k : Nat) :
+    (feedFail d s chunk k).2 <+: (feed d s chunk).2 ∧ (feedFail d s chunk k).1 = (feed d s chunk).1 := by
+  simp only [feedFail]
+  exact ⟨List.take_prefix _ _, trivial⟩
+
 /-! ### Non-vacuity: concrete runs that meet the hypotheses -/
 
 -- multi-character, self-overlapping delimiter "aa" split across three reads
